@@ -93,6 +93,20 @@ def call(eng, st, fr, callee, args, argtys, dest_ty):
             conds.append(cmp_("eq", x.e, y.e) if isinstance(x, IntV) else zsimp(Z(x.e) == Z(y.e)))
         r = AND(*conds)
         return [(True, BoolV(r if m.group(2) == "eq" else NOT(r)))]
+    if re.match(r"^<std::ops::Range<\w+> as IntoIterator>::into_iter$", callee):
+        return [(True, args[0])]
+    m = re.match(r"^<std::ops::Range<(\w+)> as Iterator>::next$", callee)
+    if m:
+        ity = m.group(1)
+        ref = args[0]
+        rng = deref(eng, st, ref)
+        s0, e0 = rng.fields[0].e, rng.fields[1].e
+        more = cmp_("lt", s0, e0)
+        def take(s2, ref=ref, s0=s0, e0=e0, ty=rng.ty):
+            nxt = (s0 + 1) if is_conc(s0) else zsimp(Z(s0) + 1)
+            eng.store_loc(s2, (ref.uid, ref.local, ref.path), Agg(ty, (IntV(ity, nxt), IntV(ity, e0))))
+            return mk_some(ity, IntV(ity, s0))
+        return [(more, take), (NOT(more), mk_none(ity))]
     # Option / Result helpers
     m = re.match(r"^(?:std::option::|core::option::)?Option::<(.*)>::(\w+)$", callee)
     if m:
